@@ -241,6 +241,10 @@ func c02observe(b []byte, reports bool, mult int, retried bool) *c02Outcome {
 		if pn := c02Safely(func() { _ = p.String() }); pn != "" {
 			fail("C02/string/panic", "Profile.String of an accepted profile panics: "+pn)
 		}
+		// everything the driver does to a freshly parsed profile before a report
+		if sg, w := c02Pipeline(o.pb); sg != "" {
+			fail("C02/driver-pipeline/"+sg, w)
+		}
 		if !reports {
 			return
 		}
